@@ -184,7 +184,12 @@ pub fn intern(s: &str) -> &'static str {
             // keep the leak bounded: forget the index (memory already leaked stays leaked)
             set.clear();
         }
-        let leaked: &'static str = Box::leak(s.to_string().into_boxed_str());
+        // the borrowed text is a sub-slice of a longer allocation, at an offset (0..8) that depends on the text:
+        // code that looks at a string a machine word at a time meets every alignment of its first byte
+        let offset = (crate::engine::str_hash(s) % 8) as usize;
+        let padded = format!("{}{s}##", "#".repeat(offset));
+        let whole: &'static str = Box::leak(padded.into_boxed_str());
+        let leaked: &'static str = &whole[offset..offset + s.len()];
         set.insert(leaked);
         leaked
     })
